@@ -26,6 +26,7 @@
     * `AbortNow` is false; uint32 truncations of lengths ≥ 2^32 are out of range (blocks ≤ 4 MB).
 -/
 import GocoinV.Base.Bytes
+import GocoinV.Gen.BlockDBFacts
 namespace GocoinV.BlockDB
 
 /-! ## association lists (Go maps) -/
@@ -111,15 +112,19 @@ structure State where
   isOpen : Bool := false
   deriving Repr
 
-def RECSIZE : Nat := 136
-def MAX_BLOCKS_TO_WRITE : Nat := 1024
-def MAX_DATA_WRITE : Nat := 16 * 1024 * 1024
-def BLOCK_TRUSTED : Nat := 1
-def BLOCK_INVALID : Nat := 2
-def BLOCK_COMPRSD : Nat := 4
-def BLOCK_SNAPPED : Nat := 8
-def BLOCK_LENGTH : Nat := 16
-def BLOCK_INDEX : Nat := 32
+/- constants regenerated from blockdb.go on every run (go/cmd/gen_c16) -/
+open Gen.BlockDBFacts in
+def RECSIZE : Nat := recSize
+open Gen.BlockDBFacts in
+def MAX_BLOCKS_TO_WRITE : Nat := maxBlocksToWrite
+open Gen.BlockDBFacts in
+def MAX_DATA_WRITE : Nat := maxDataWrite
+def BLOCK_TRUSTED : Nat := Gen.BlockDBFacts.blockTrusted
+def BLOCK_INVALID : Nat := Gen.BlockDBFacts.blockInvalid
+def BLOCK_COMPRSD : Nat := Gen.BlockDBFacts.blockComprsd
+def BLOCK_SNAPPED : Nat := Gen.BlockDBFacts.blockSnapped
+def BLOCK_LENGTH : Nat := Gen.BlockDBFacts.blockLength
+def BLOCK_INDEX : Nat := Gen.BlockDBFacts.blockIndex
 
 inductive GetErr
   | notInIndex | notWritten | purged | noFile | shortRead | snappy | gzip
@@ -231,8 +236,8 @@ def writeOne (env : Env) (s : State) : Option State :=
     let s := { s with queue := q, datToWrite := s.datToWrite - b2w.data.length }
     match AL.get s.index b2w.idx with
     | none => some s                                  -- "Block not in the index anymore - discard"
-    | some rec =>
-      if rec.ipos.isSome then some s else
+    | some r0 =>
+      if r0.ipos.isSome then some s else
       let cbts := if s.opts.compress then env.enc b2w.data else b2w.data
       let blen := cbts.length
       let s := if s.opts.maxFileSize ≠ 0 ∧ s.maxdatfilepos + cbts.length > s.opts.maxFileSize
@@ -240,15 +245,15 @@ def writeOne (env : Env) (s : State) : Option State :=
       let datfileidx := s.maxdatfileidx
       let fpos := s.maxdatfilepos
       let ipos := s.maxidxfilepos
-      let fl := mkRecord (flagsOf s.opts.compress rec.trusted) datfileidx b2w.data.length b2w.height fpos blen
+      let fl := mkRecord (flagsOf s.opts.compress r0.trusted) datfileidx b2w.data.length b2w.height fpos blen
                   b2w.txcount b2w.data
       let dat := (AL.get s.fs.dats datfileidx).getD []
       let fs := { s.fs with dats := AL.set s.fs.dats datfileidx (pwrite dat fpos cbts),
                             idx := pwrite s.fs.idx ipos fl }
-      let rec := { rec with compressed := s.opts.compress, snappied := s.opts.compress, blen := blen,
+      let nrec := { r0 with compressed := s.opts.compress, snappied := s.opts.compress, blen := blen,
                             datfileidx := datfileidx, fpos := fpos, ipos := some ipos }
       some { s with fs := fs, maxidxfilepos := s.maxidxfilepos + RECSIZE, maxdatfilepos := s.maxdatfilepos + blen,
-                    index := AL.set s.index b2w.idx rec }
+                    index := AL.set s.index b2w.idx nrec }
 
 /-- `writeAll` (fuel = queue length) -/
 def writeAll (env : Env) : Nat → State → State
@@ -261,9 +266,9 @@ def flush (env : Env) (s : State) : State := writeAll env s.queue.length s
 
 /-- `setBlockFlag`: `trusted = true` in memory whatever the flag; OR the flag into the byte at ipos
     (ReadAt/WriteAt at -1 fail silently) -/
-def setBlockFlag (s : State) (k : Key) (rec : Rec) (fl : Nat) : State :=
-  let s := { s with index := AL.set s.index k { rec with trusted := true } }
-  match rec.ipos with
+def setBlockFlag (s : State) (k : Key) (r0 : Rec) (fl : Nat) : State :=
+  let s := { s with index := AL.set s.index k { r0 with trusted := true } }
+  match r0.ipos with
   | none => s
   | some p =>
     let cur := (s.fs.idx.getD p 0).toNat
@@ -273,7 +278,7 @@ def blockTrusted (s : State) (hash : Bytes) : State :=
   let k := keyOf hash
   match AL.get s.index k with
   | none => s
-  | some rec => if rec.trusted then s else setBlockFlag s k rec BLOCK_TRUSTED
+  | some r0 => if r0.trusted then s else setBlockFlag s k r0 BLOCK_TRUSTED
 
 def blockAdd (env : Env) (s : State) (hash : Bytes) (height txcount : Nat) (trusted : Bool) (raw : Bytes) : State :=
   let k := keyOf hash
@@ -284,9 +289,9 @@ def blockAdd (env : Env) (s : State) (hash : Bytes) (height txcount : Nat) (trus
     let s := { s with datToWrite := s.datToWrite + raw.length,
                       queue := s.queue ++ [{ data := raw, idx := k, height := height, txcount := txcount % 2^32 }] }
     if s.queue.length ≥ MAX_BLOCKS_TO_WRITE ∨ s.datToWrite ≥ MAX_DATA_WRITE then flush env s else s
-  | some rec =>
-    if !rec.trusted && trusted then
-      if rec.ipos.isNone then { s with index := AL.set s.index k { rec with trusted := true } }
+  | some r0 =>
+    if !r0.trusted && trusted then
+      if r0.ipos.isNone then { s with index := AL.set s.index k { r0 with trusted := true } }
       else blockTrusted s hash
     else s
 
@@ -294,10 +299,10 @@ def blockInvalid (s : State) (hash : Bytes) : State × Out :=
   let k := keyOf hash
   match AL.get s.index k with
   | none => (s, .ok)
-  | some rec =>
-    if rec.trusted then (s, .panic)     -- "Trusted block cannot be invalid" (db.mutex stays locked)
-    else if rec.ipos.isNone then ({ s with cache := AL.del s.cache k, index := AL.del s.index k }, .ok)
-    else (setBlockFlag s k rec BLOCK_INVALID, .ok)
+  | some r0 =>
+    if r0.trusted then (s, .panic)     -- "Trusted block cannot be invalid" (db.mutex stays locked)
+    else if r0.ipos.isNone then ({ s with cache := AL.del s.cache k, index := AL.del s.index k }, .ok)
+    else (setBlockFlag s k r0 BLOCK_INVALID, .ok)
 
 /-! ## reading -/
 
@@ -305,45 +310,45 @@ def blockGet (env : Env) (s : State) (hash : Bytes) : State × Out :=
   let k := keyOf hash
   match AL.get s.index k with
   | none => (s, .getErr .notInIndex false)
-  | some rec =>
+  | some r0 =>
     match AL.get s.cache k with
     | some c =>
-      ({ s with cache := AL.set s.cache k { c with lastUsed := s.clock }, clock := s.clock + 1 }, .data c.data rec.trusted)
+      ({ s with cache := AL.set s.cache k { c with lastUsed := s.clock }, clock := s.clock + 1 }, .data c.data r0.trusted)
     | none =>
-      if rec.ipos.isNone then (s, .getErr .notWritten rec.trusted)
-      else if rec.blen = 0 then (s, .getErr .purged rec.trusted)
+      if r0.ipos.isNone then (s, .getErr .notWritten r0.trusted)
+      else if r0.blen = 0 then (s, .getErr .purged r0.trusted)
       else
-        match (AL.get s.fs.dats rec.datfileidx).orElse (fun _ => AL.get s.fs.olds rec.datfileidx) with
-        | none => (s, .getErr .noFile rec.trusted)
+        match (AL.get s.fs.dats r0.datfileidx).orElse (fun _ => AL.get s.fs.olds r0.datfileidx) with
+        | none => (s, .getErr .noFile r0.trusted)
         | some file =>
-          if rec.fpos + rec.blen > file.length then (s, .getErr .shortRead rec.trusted)
+          if r0.fpos + r0.blen > file.length then (s, .getErr .shortRead r0.trusted)
           else
-            let raw := (file.drop rec.fpos).take rec.blen
+            let raw := (file.drop r0.fpos).take r0.blen
             let (bl, err) : Bytes × Option GetErr :=
-              if rec.compressed then
-                if rec.snappied then
+              if r0.compressed then
+                if r0.snappied then
                   match env.dec raw with
                   | some d => (d, none)
                   | none => ([], some .snappy)
                 else ([], some .gzip)
               else (raw, none)
-            let rec' := if rec.olen = 0 then { rec with olen := bl.length } else rec
-            let s := { s with index := AL.set s.index k rec' }
+            let nrec := if r0.olen = 0 then { r0 with olen := bl.length } else r0
+            let s := { s with index := AL.set s.index k nrec }
             let s := addToCache s k bl
             match err with
-            | none => (s, .data bl rec.trusted)
-            | some e => (s, .getErr e rec.trusted)
+            | none => (s, .data bl r0.trusted)
+            | some e => (s, .getErr e r0.trusted)
 
 def blockLength (env : Env) (s : State) (hash : Bytes) (decodeIfNeeded : Bool) : State × Out :=
   let k := keyOf hash
   match AL.get s.index k with
   | none => (s, .lenErr)
-  | some rec =>
-    if rec.olen ≠ 0 then (s, .len rec.olen)
-    else if !rec.compressed || !decodeIfNeeded then (s, .len rec.blen)
+  | some r0 =>
+    if r0.olen ≠ 0 then (s, .len r0.olen)
+    else if !r0.compressed || !decodeIfNeeded then (s, .len r0.blen)
     else
       match blockGet env s hash with
-      | (s', .data _ _) => (s', .len ((AL.get s'.index k).getD rec).olen)
+      | (s', .data _ _) => (s', .len ((AL.get s'.index k).getD r0).olen)
       | (s', _) => (s', .lenErr)
 
 /-! ## LoadBlockIndex -/
@@ -387,17 +392,19 @@ def loadLoop (env : Env) : Nat → Bytes → LoadAcc → LoadAcc
     if file.length < RECSIZE then a
     else loadLoop env f (file.drop RECSIZE) (loadRecord env a (file.take RECSIZE))
 
+/-- `for limit := 0; limit < 3; limit++ { idx--; …; if idx == 0 { break } }` -/
+def cleanupGo (o : Opts) : Nat → Nat → FS → FS
+  | 0, _, fs => fs
+  | f + 1, idx, fs =>
+    let idx := idx - 1
+    let fs := removeDatFile o fs idx
+    if idx = 0 then fs else cleanupGo o f idx fs
+
 /-- removal (or backup) of old data files at the end of LoadBlockIndex -/
 def loadCleanup (o : Opts) (maxdatfileidx : Nat) (fs : FS) : FS :=
   if o.keep ≠ 0 ∧ maxdatfileidx > o.keep then
     let idx := maxdatfileidx - o.keep
-    let rec go : Nat → Nat → FS → FS
-      | 0, _, fs => fs
-      | f + 1, idx, fs =>
-        let idx := idx - 1
-        let fs := removeDatFile o fs idx
-        if idx = 0 then fs else go f idx fs
-    go 3 idx fs
+    cleanupGo o 3 idx fs
   else fs
 
 /-- `NewBlockDBExt(dir, opts)` followed by `LoadBlockIndex` on the files left by earlier sessions -/
